@@ -308,9 +308,17 @@ func verifC17_MQTTCap() {
 
 var vEncodeSeq int
 
-// vSessionEncode replaces Session.encode (YAML): the text is the number of subscriptions
+var vPersistTopics = []string{"t/1", "t/2", "t/3"}
+
+// vSessionEncode replaces Session.encode (YAML): the text lists the subscriptions with their QoS
 func vSessionEncode(s *Session) (string, error) {
-	return []string{"0", "1", "2", "3"}[len(s.info.Topics)], nil
+	out := ""
+	for _, t := range vPersistTopics {
+		if q, ok := s.info.Topics[t]; ok {
+			out += t + "=" + []string{"0", "1", "2"}[q] + ";"
+		}
+	}
+	return out, nil
 }
 
 // verifC16_SessionPersist: the REAL Session.store and SessionManager.doStore. A session change
@@ -328,11 +336,10 @@ func verifC16_SessionPersist() {
 	s := &Session{}
 	s.init(sm, b, connect)
 	changes := verifBound("changes")
+	want := ""
 	for i := 0; i < changes; i++ {
-		s.Lock()
-		s.info.Topics[[]string{"t/1", "t/2", "t/3"}[i]] = 1
-		s.Unlock()
-		s.store() // what subscribe does after updating the session
+		s.subscribe([]string{vPersistTopics[i]}, []byte{1}) // the real Session.subscribe (updates and stores)
+		want += vPersistTopics[i] + "=1;"
 	}
 	if verifBool("connectionEndsRightAway") {
 		s.close()
@@ -342,7 +349,42 @@ func verifC16_SessionPersist() {
 	got, ok := vStore.kv[sessionStoreKey("c")]
 	verifAssert(ok, "acknowledged-session-change-reaches-the-store")
 	if ok {
-		verifAssert(got == []string{"0", "1", "2", "3"}[changes], "store-ends-with-the-latest-session-state")
+		verifAssert(got == want, "store-ends-with-the-latest-session-state")
+	}
+}
+
+// verifC16_ResubscribePersist: one change at a time (no two writes in flight, so independent of
+// F-C16-3): subscribe, re-subscribe the same filter with another QoS, unsubscribe - after each
+// step the stored session is the session, so a resume from storage restores exactly it.
+func verifC16_ResubscribePersist() {
+	b := vC16Broker(0)
+	sm := &SessionManager{broker: b, store: vStore, storeCh: make(chan SessionStore), done: make(chan struct{})}
+	verifInitMaps(sm)
+	b.sessMgr = sm
+	go sm.doStore()
+	connect := packets.NewControlPacket(packets.Connect).(*packets.ConnectPacket)
+	connect.ClientIdentifier, connect.CleanSession = "c", false
+	s := &Session{}
+	s.init(sm, b, connect)
+	q1 := byte(verifInt("firstQoS", 0, 1))
+	s.subscribe([]string{"t/1"}, []byte{q1})
+	verifQuiesce()
+	verifAssert(vStore.kv[sessionStoreKey("c")] == "t/1="+[]string{"0", "1"}[q1]+";", "subscription-persisted")
+	switch verifChoose("secondStep", 3) {
+	case 0: // the same filter again with the other QoS
+		s.subscribe([]string{"t/1"}, []byte{1 - q1})
+		verifQuiesce()
+		verifAssert(vStore.kv[sessionStoreKey("c")] == "t/1="+[]string{"0", "1"}[1-q1]+";", "re-subscription-with-another-qos-persisted")
+		verifCover("qos-changed")
+	case 1: // another filter
+		s.subscribe([]string{"t/2"}, []byte{1})
+		verifQuiesce()
+		verifAssert(vStore.kv[sessionStoreKey("c")] == "t/1="+[]string{"0", "1"}[q1]+";t/2=1;", "second-subscription-persisted")
+	case 2:
+		s.unsubscribe([]string{"t/1"})
+		verifQuiesce()
+		verifAssert(vStore.kv[sessionStoreKey("c")] == "", "unsubscription-persisted")
+		verifCover("unsubscribed")
 	}
 }
 
@@ -414,4 +456,53 @@ func verifC14_ClientSubscriptions() {
 			verifCover("filters-with-different-qos-resumed")
 		}
 	}
+}
+
+// ---- retransmission follows the connection that holds the session ---------------------------
+
+var vResendTick chan time.Time
+
+func vResendTicker(d time.Duration) *time.Ticker { return &time.Ticker{C: vResendTick} }
+func vResendTickerStop(t *time.Ticker)           {}
+
+// verifC16_ResendAfterTakeover: an unacknowledged QoS1 message of a persistent session is
+// retransmitted by the REAL backgroundResendPending to whichever connection holds the client
+// id at that moment: after a takeover (cleanSession=false, same session) to the new
+// connection, never to the superseded one.
+func verifC16_ResendAfterTakeover() {
+	b := vBroker()
+	cA := vClient(b, "c", 4)
+	b.clients["c"] = cA
+	s := cA.session
+	s.done = make(chan struct{})
+	s.pending[7] = newMsg("t/1", []byte{1}, QoS1)
+	s.pendingQueue = append(s.pendingQueue, 7)
+	vResendTick = make(chan time.Time, 4)
+	go s.backgroundResendPending()
+	ticksBefore := verifChoose("resendTicksBeforeTheTakeover", 2)
+	for i := 0; i < ticksBefore; i++ {
+		vResendTick <- time.Time{}
+		verifQuiesce()
+		verifAssert(len(cA.writeCh) == 1, "unacknowledged-message-retransmitted-to-the-connected-client")
+		<-cA.writeCh
+	}
+	// takeover with cleanSession=false: the new connection continues the session
+	cB := vClient(b, "c", 4)
+	cB.session = s
+	b.Lock()
+	b.clients["c"] = cB
+	b.Unlock()
+	go cA.close()
+	vResendTick <- time.Time{}
+	verifQuiesce()
+	verifAssert(len(cB.writeCh) == 1, "after-a-takeover-the-retransmission-goes-to-the-new-connection")
+	verifAssert(len(cA.writeCh) == 0, "nothing-is-sent-to-the-superseded-connection")
+	if len(cB.writeCh) == 1 {
+		p := (<-cB.writeCh).(*packets.PublishPacket)
+		verifAssert(p.MessageID == 7 && p.TopicName == "t/1", "retransmission-keeps-packet-id-and-topic")
+	}
+	if ticksBefore > 0 {
+		verifCover("resent-before-and-after-the-takeover")
+	}
+	s.close()
 }
